@@ -32,6 +32,16 @@ def run(ck, tier):
     for n in ast.walk(enc.node):
         if isinstance(n, ast.Assign) and any(U(t) == 'self.space_left' for t in n.targets):
             budget = cx.ce.try_ev(n.value, enc.mod, rsp)
+    if not isinstance(budget, int):
+        # the value may be spelt with named parts: take it with the locals substituted, the same on every path
+        vals = set()
+        for p in cx.enum(enc, rsp, max_depth=0):
+            annotate(p, heap=False)
+            for e in p.ev:
+                if e.kind == 'assign' and U(e.a) == 'self.space_left' and getattr(e, '_sub', None) is not None:
+                    vals.add(cx.ce.try_ev(e._sub, enc.mod, rsp))
+        if len(vals) == 1:
+            budget = vals.pop()
     ck.ob('R1', enc.qn, 'encode() initialises a constant byte budget', isinstance(budget, int), detail='no-budget', loc=cx.floc(enc))
     seq = rename_rep(normalise(Writer(cx, rsp).func(enc)))
     header = Seq([it for it in seq if it[0] == 'F'])
@@ -225,6 +235,47 @@ def run(ck, tier):
         g = cx.method(fac, '__gets')
         txt = U(g.node)
         ck.ob('R4', g.qn, 'only populated (non-empty) objects are returned', 'if identity[oid]' in txt.replace(g.params[1], 'identity'), detail='gets-filter', loc=cx.floc(g))
+    # ---------------- R5: exact values
+    ck.rule('R5', 'exact values: the factory hands out identity[id] itself for every selected id, and get() returns the selected table unchanged (no conversion between the store and the response)')
+    n5 = 0
+
+    def pairs_of(r):
+        """(key node, value node) of a dict-building return expression, else None"""
+        if isinstance(r, ast.Dict):
+            return list(zip(r.keys, r.values))
+        if isinstance(r, ast.DictComp):
+            return [(r.key, r.value)]
+        if isinstance(r, ast.Call) and callee_name(r) == 'dict' and len(r.args) == 1 and isinstance(r.args[0], (ast.GeneratorExp, ast.ListComp)) \
+                and isinstance(r.args[0].elt, (ast.Tuple, ast.List)) and len(r.args[0].elt.elts) == 2:
+            return [tuple(r.args[0].elt.elts)]
+        return None
+    for gname in ('__get', '__gets'):
+        g = cx.idx.find_method(fac, gname)
+        if g is None:
+            continue
+        ck.saw('functions', g.qn)
+        idp = g.params[1]
+        for r in [x for x in ast.walk(g.node) if isinstance(x, ast.Return) and x.value is not None]:
+            n5 += 1
+            prs = pairs_of(r.value)
+            ok = prs is not None and all(isinstance(v, ast.Subscript) and isinstance(v.value, ast.Name) and v.value.id == idp and U(v.slice) == U(k)
+                                         for k, v in prs)
+            ck.ob('R5', g.qn, 'each returned value is %s[id] for its own id' % idp, ok, detail='value-not-the-stored-object', loc=cx.floc(g, r),
+                  message='DeviceInformationFactory.%s returns `%s`: the value served for an object id is not the configured object itself'
+                          % (gname.lstrip('_'), U(r.value)[:80]))
+    gt = cx.method(fac, 'get')
+    ck.saw('functions', gt.qn)
+    for p in cx.enum(gt, fac, max_depth=0):
+        if p.exit and p.exit[0] == 'exc':
+            continue
+        annotate(p)
+        r = ret_expr(p)
+        n5 += 1
+        ok = isinstance(r, ast.Call) and isinstance(r.func, ast.Subscript) and U(r.func.value).endswith('__lookup')
+        ck.ob('R5', gt.qn, 'get() returns the result of the per-read-code getter unchanged', ok, detail='get-result-converted', loc=cx.floc(gt),
+              message='DeviceInformationFactory.get returns `%s` instead of the getter\'s table: the objects served are no longer the configured values '
+                      '(e.g. bytes re-encoded as text change length and content on the wire)' % (U(r)[:90] if r is not None else None))
+    ck.floor('R5', n5, 3, 'value-producing returns of the identity factory')
     req = cx.idx.cls(REQ)
     rex = cx.method(req, 'execute')
     calls = [c for c in ast.walk(rex.node) if isinstance(c, ast.Call) and U(c.func) == 'DeviceInformationFactory.get']
@@ -268,7 +319,7 @@ def run(ck, tier):
         r = ret_expr(p)
         if isinstance(r, ast.Call) and callee_name(r) == 'doException':
             nx += 1
-            conds = [U(e.node) for e in p.ev if e.kind == 'cond']
+            conds = [U(getattr(e, '_sub', None) or e.node) for e in p.ev if e.kind == 'cond']
             foreign = [c for c in conds if 'read_code' not in c and 'object_id' not in c]
             ck.ob('R4', rex.qn, 'an exception response is returned only for an invalid read code / object id', not foreign,
                   detail='identity-request-refused-on %s' % foreign[:2], loc=cx.floc(rex),
